@@ -150,12 +150,17 @@ def _set(attr, values):
     return set_
 
 
+def _ws_root(f):
+    """was this flow built by twebsocketflow()?  (the host is never edited; the WebSocket data itself can be detached)"""
+    return f.request.data.host == "example.com"
+
+
 def _req_content(f, i):
-    f.request.content = ([b"", b"edited body", b"x"] if f.websocket is not None else [b"content", b"edited body", b""])[i]
+    f.request.content = ([b"", b"edited body", b"x"] if _ws_root(f) else [b"content", b"edited body", b""])[i]
 
 
 def _req_path(f, i):
-    base = "/ws" if f.websocket is not None else "/path"
+    base = "/ws" if _ws_root(f) else "/path"
     f.request.path = [base, "/other?x=1"][i]
 
 
@@ -175,13 +180,31 @@ def _resp_absent(f, i):
 
 
 def _resp_status(f, i):
-    base = 101 if f.websocket is not None else 200
+    base = 101 if _ws_root(f) else 200
     f.response.status_code = [base, 404][i]
 
 
 def _resp_content(f, i):
-    base = b"" if f.websocket is not None else b"message"
+    base = b"" if _ws_root(f) else b"message"
     f.response.content = [base, b"changed"][i]
+
+
+def _ws_attach(f, i):
+    """whole optional sub-object: attach WebSocket data to a plain HTTP flow (the upgrade happens after the backup) / detach it"""
+    f.websocket = tflow.twebsocket() if i == 1 else None
+
+
+def _ws_detach(f, i):
+    """on the WebSocket root: 0 = the root's WebSocket data, 1 = none"""
+    if i == 1:
+        f.websocket = None
+    else:
+        f.websocket = tflow.twebsocket()
+        f.websocket.close_reason = ""
+
+
+def _has_ws(f):
+    return f.websocket is not None
 
 
 def _ws_msg(f, i):
@@ -284,16 +307,19 @@ HTTP_EDITS = [
     ("resp_header", _has_resp, 3, _hdr(lambda f: f.response), 0),
 ]
 EDITS = {
+    # whole optional sub-objects (response, WebSocket data, error) are attached and removed as single edits, so that
+    # "backup before the response / the upgrade / the error existed, then revert" is part of every alphabet
     "http": HTTP_EDITS + [("resp_present", _always, 2, _resp_absent, 0)] + COMMON,
-    "http_resp": HTTP_EDITS + [("resp_present", _always, 2, _resp_present, 0)] + COMMON,
+    "http_resp": HTTP_EDITS + [("resp_present", _always, 2, _resp_present, 2), ("ws_present", _always, 2, _ws_attach, 2)] + COMMON,
     "http_ws": [
         ("req_header", _always, 3, _hdr(lambda f: f.request), 0),
         ("req_content", _always, 2, _req_content, 0),
         ("resp_status", _has_resp, 2, _resp_status, 0),
-        ("ws_msg", _always, 2, _ws_msg, 2),
-        ("ws_len", _always, 2, _ws_len, 2),
-        ("ws_drop", _always, 2, _ws_drop, 0),
-        ("ws_close", _always, 2, _ws_close, 2),
+        ("ws_present", _always, 2, _ws_detach, 2),
+        ("ws_msg", _has_ws, 2, _ws_msg, 2),
+        ("ws_len", _has_ws, 2, _ws_len, 2),
+        ("ws_drop", _has_ws, 2, _ws_drop, 0),
+        ("ws_close", _has_ws, 2, _ws_close, 2),
     ] + COMMON,
     "tcp": [
         ("msg_content", _always, 3, _msg_content, 2),
@@ -309,7 +335,7 @@ EDITS = {
     ] + COMMON,
 }
 EDITS["udp"] = EDITS["tcp"]
-EDITS["dns_resp"] = [e if e[0] != "resp_present" else ("resp_present", _always, 2, _dns_resp_present, 0) for e in EDITS["dns"]]
+EDITS["dns_resp"] = [e if e[0] != "resp_present" else ("resp_present", _always, 2, _dns_resp_present, 2) for e in EDITS["dns"]]
 EDIT_BY_NAME = {k: {e[0]: e for e in v} for k, v in EDITS.items()}
 
 
